@@ -498,7 +498,16 @@ def truth(v):
         return v.terms[0] != empty_set(ty.key).t
     if isinstance(ty, TOpt):
         return z3.And(z3.Not(opt_isnone(v)), truth(opt_inner(v)))
-    if isinstance(ty, (TRef, TOpaque, TRec)):
+    if isinstance(ty, TOpaque):
+        # an arbitrary Python value: falsy for 0, "", [], {}, None-like values ... - an uninterpreted predicate of the value
+        (srt,) = ty.comps()
+        return z3.Function("truthy!%s" % srt, srt, z3.BoolSort())(v.t)
+    if isinstance(ty, TRec):
+        # a dictionary is falsy exactly when it is empty: no declared key present and no other key (uninterpreted for the rest)
+        rest = v.terms[-1]
+        some_rest = z3.Function("nonempty!%s" % rest.sort(), rest.sort(), z3.BoolSort())(rest)
+        return z3.Or([ty.present(v.terms, f) for f in ty.fields] + [some_rest])
+    if isinstance(ty, TRef):
         return z3.BoolVal(True)
     if isinstance(ty, TTuple):
         return z3.BoolVal(len(ty.items) > 0)
